@@ -4,9 +4,11 @@ import (
 	_ "embed"
 	"encoding/json"
 	"go/ast"
+	"go/token"
 	"go/types"
 	"os"
 	"sort"
+	"strings"
 
 	"verif/checker/internal/astx"
 	"verif/checker/internal/cfgx"
@@ -34,6 +36,7 @@ type errSite struct {
 	callee  string
 	strong  bool
 	dropped bool // the error result is not even bound to a variable
+	fatal   bool // decisive, and every path on which the error may be set ends in a call that does not return (panic, log.Fatal…)
 	pos     string
 }
 
@@ -60,13 +63,21 @@ func (c *Ctx) errSitesOf(fi *load.FuncInfo) []errSite {
 				for _, res := range rs.Results {
 					if call, ok := ast.Unparen(res).(*ast.CallExpr); ok {
 						if t := info.TypeOf(call); t != nil && types.Identical(t, errT) {
-							out = append(out, errSite{attrib, calleeKey(info, call), true, false, c.P.Pos(call.Pos())})
+							out = append(out, errSite{attrib, calleeKey(info, call), true, false, false, c.P.Pos(call.Pos())})
 						}
 					}
 				}
 				continue
 			}
 			as, ok := v.Node.(*ast.AssignStmt)
+			if vs, isV := v.Node.(*ast.ValueSpec); isV && len(vs.Values) == 1 {
+				// var err error = f(): read as err := f()
+				syn := &ast.AssignStmt{Tok: token.DEFINE, TokPos: vs.Pos(), Rhs: vs.Values}
+				for _, nm := range vs.Names {
+					syn.Lhs = append(syn.Lhs, nm)
+				}
+				as, ok = syn, true
+			}
 			if !ok || len(as.Rhs) != 1 {
 				var dropped *ast.CallExpr
 				switch st := v.Node.(type) {
@@ -83,11 +94,11 @@ func (c *Ctx) errSitesOf(fi *load.FuncInfo) []errSite {
 						if tup, ok := info.TypeOf(call).(*types.Tuple); ok {
 							for i := 0; i < tup.Len(); i++ {
 								if types.Identical(tup.At(i).Type(), errT) {
-									out = append(out, errSite{attrib, calleeKey(info, call), false, true, c.P.Pos(call.Pos())})
+									out = append(out, errSite{attrib, calleeKey(info, call), false, true, false, c.P.Pos(call.Pos())})
 								}
 							}
 						} else if t := info.TypeOf(call); t != nil && types.Identical(t, errT) {
-							out = append(out, errSite{attrib, calleeKey(info, call), false, true, c.P.Pos(call.Pos())})
+							out = append(out, errSite{attrib, calleeKey(info, call), false, true, false, c.P.Pos(call.Pos())})
 						}
 					}
 				}
@@ -124,7 +135,7 @@ func (c *Ctx) errSitesOf(fi *load.FuncInfo) []errSite {
 					}
 				}
 				if blank {
-					out = append(out, errSite{attrib, calleeKey(info, call), false, true, c.P.Pos(call.Pos())})
+					out = append(out, errSite{attrib, calleeKey(info, call), false, true, false, c.P.Pos(call.Pos())})
 				}
 				continue
 			}
@@ -133,91 +144,9 @@ func (c *Ctx) errSitesOf(fi *load.FuncInfo) []errSite {
 			// err == nil are the success paths and are not constrained. An assignment that copies the variable into another
 			// error variable (`err = err2`, also as one position of a tuple assignment) hands the obligation on to that
 			// variable from there.
-			var decisive func(start int, obj types.Object, depth int) bool
-			decisive = func(start int, obj types.Object, depth int) bool {
-				nilEdge := func(e *cfgx.Edge) bool {
-					if e.Cond == nil {
-						return false
-					}
-					for _, f := range e.Facts() {
-						x, isNil, ok := nilCompare(info, f)
-						if ok && isNil {
-							if xid, ok := ast.Unparen(x).(*ast.Ident); ok && astx.Obj(info, xid) == obj {
-								return true
-							}
-						}
-					}
-					return false
-				}
-				// copyTo returns the variable that receives obj at vertex x
-				copyTo := func(x int) types.Object {
-					as2, ok := g.V[x].Node.(*ast.AssignStmt)
-					if !ok || x == start || len(as2.Lhs) != len(as2.Rhs) {
-						return nil
-					}
-					for i, rh := range as2.Rhs {
-						rid, ok := ast.Unparen(rh).(*ast.Ident)
-						if !ok || astx.Obj(info, rid) != obj {
-							continue
-						}
-						if lid, ok := as2.Lhs[i].(*ast.Ident); ok && lid.Name != "_" {
-							if o := astx.Obj(info, lid); o != nil && o != obj && types.Identical(o.Type(), errT) {
-								return o
-							}
-						}
-					}
-					return nil
-				}
-				copies := map[int]bool{}
-				stop := func(x int) bool {
-					if x == start {
-						return false
-					}
-					if rs2, ok := g.V[x].Node.(*ast.ReturnStmt); ok && astx.Mentions(info, rs2, obj) {
-						return true
-					}
-					if depth < 3 && copyTo(x) != nil {
-						copies[x] = true
-						return true
-					}
-					return false
-				}
-				overwritten := func(x int) bool {
-					if x == start {
-						return false
-					}
-					as2, ok := g.V[x].Node.(*ast.AssignStmt)
-					if !ok {
-						return false
-					}
-					for _, l := range as2.Lhs {
-						if id, ok := l.(*ast.Ident); ok && astx.Obj(info, id) == obj {
-							return true
-						}
-					}
-					return false
-				}
-				reach := g.Reach(start, stop, nilEdge)
-				if reach[g.Exit] {
-					return false
-				}
-				for x := range g.V {
-					if !reach[x] {
-						continue
-					}
-					if overwritten(x) {
-						return false
-					}
-				}
-				for x := range copies {
-					if !decisive(x, copyTo(x), depth+1) {
-						return false
-					}
-				}
-				return true
-			}
-			strong := decisive(v.ID, obj, 0)
-			out = append(out, errSite{attrib, calleeKey(info, call), strong, false, c.P.Pos(call.Pos())})
+			strong, sawReturn := c.errDecisive(info, g, v.ID, obj)
+			fatalSite := strong && !sawReturn
+			out = append(out, errSite{attrib, calleeKey(info, call), strong, false, fatalSite, c.P.Pos(call.Pos())})
 		}
 	}
 	one(fi.Info(), c.Graph(fi))
@@ -236,6 +165,129 @@ func (c *Ctx) errSitesOf(fi *load.FuncInfo) []errSite {
 }
 
 // GenErrTable writes the table for the current tree.
+
+// errDecisive: the error held in obj, defined at vertex start, is decisive — from the definition, every path on which the
+// error may be set ends in a no-return call or a return that mentions the variable, before the variable is overwritten
+// (copies into other error variables and wrapping assignments are followed). sawReturn reports whether such a return was seen
+// (false for a strong site: the error stops the process on every path).
+func (c *Ctx) errDecisive(info *types.Info, g *cfgx.Graph, start0 int, obj0 types.Object) (strong, sawRet bool) {
+	return c.errDecisiveFrom(info, g, start0, obj0, false)
+}
+
+// errDecisiveFrom: as errDecisive; with inclusive set, start0 is not the definition of the error but a vertex at which it is
+// known to be set: the vertex itself may already return it, copy it or overwrite it.
+func (c *Ctx) errDecisiveFrom(info *types.Info, g *cfgx.Graph, start0 int, obj0 types.Object, inclusive bool) (strong, sawRet bool) {
+	errT := types.Universe.Lookup("error").Type()
+	sawReturn := false
+	var decisive func(start int, obj types.Object, depth int) bool
+	decisive = func(start int, obj types.Object, depth int) bool {
+		nilEdge := func(e *cfgx.Edge) bool {
+			if e.Cond == nil {
+				return false
+			}
+			for _, f := range e.Facts() {
+				x, isNil, ok := nilCompare(info, f)
+				if ok && isNil {
+					if xid, ok := ast.Unparen(x).(*ast.Ident); ok && astx.Obj(info, xid) == obj {
+						return true
+					}
+				}
+			}
+			return false
+		}
+		// copyTo returns the variable that receives obj at vertex x
+		copyTo := func(x int) types.Object {
+			as2, ok := g.V[x].Node.(*ast.AssignStmt)
+			if !ok || x == start && !(inclusive && depth == 0) || len(as2.Lhs) != len(as2.Rhs) {
+				return nil
+			}
+			for i, rh := range as2.Rhs {
+				// the variable itself, or an error built from it (fmt.Errorf("…: %w", err), a wrapping helper)
+				if rid, ok := ast.Unparen(rh).(*ast.Ident); !ok || astx.Obj(info, rid) != obj {
+					t := info.TypeOf(rh)
+					if _, isCall := ast.Unparen(rh).(*ast.CallExpr); !isCall || t == nil || !types.Identical(t, errT) || !astx.Mentions(info, rh, obj) {
+						continue
+					}
+				}
+				if lid, ok := as2.Lhs[i].(*ast.Ident); ok && lid.Name != "_" {
+					if o := astx.Obj(info, lid); o != nil && o != obj && types.Identical(o.Type(), errT) {
+						return o
+					}
+				}
+			}
+			return nil
+		}
+		copies := map[int]bool{}
+		stop := func(x int) bool {
+			if x == start && !(inclusive && depth == 0) {
+				return false
+			}
+			if rs2, ok := g.V[x].Node.(*ast.ReturnStmt); ok && astx.Mentions(info, rs2, obj) {
+				sawReturn = true
+				return true
+			}
+			if depth < 3 && copyTo(x) != nil {
+				copies[x] = true
+				return true
+			}
+			return false
+		}
+		overwritten := func(x int) bool {
+			if x == start && !(inclusive && depth == 0) {
+				return false
+			}
+			as2, ok := g.V[x].Node.(*ast.AssignStmt)
+			if !ok {
+				return false
+			}
+			for i, l := range as2.Lhs {
+				if id, ok := l.(*ast.Ident); ok && astx.Obj(info, id) == obj {
+					// err = fmt.Errorf("…: %w", err): the error is carried on in the same variable
+					if len(as2.Lhs) == len(as2.Rhs) {
+						if _, isCall := ast.Unparen(as2.Rhs[i]).(*ast.CallExpr); isCall && astx.Mentions(info, as2.Rhs[i], obj) {
+							continue
+						}
+					}
+					return true
+				}
+			}
+			return false
+		}
+		if inclusive && depth == 0 {
+			if overwritten(start) {
+				return false
+			}
+			if stop(start) {
+				if copies[start] {
+					return decisive(start, copyTo(start), depth+1)
+				}
+				return true
+			}
+		}
+		reach := g.Reach(start, stop, nilEdge)
+		if reach[g.Exit] {
+			return false
+		}
+		for x := range g.V {
+			if !reach[x] {
+				continue
+			}
+			if overwritten(x) {
+				return false
+			}
+		}
+		for x := range copies {
+			if !decisive(x, copyTo(x), depth+1) {
+				return false
+			}
+		}
+		return true
+	}
+	sawReturn = false
+	strong = decisive(start0, obj0, 0)
+	return strong, sawReturn
+}
+
 func GenErrTable(p *load.Program, out string) error {
 	c := &Ctx{P: p, graphs: map[ast.Node]*cfgx.Graph{}}
 	computeAliases(p)
@@ -248,6 +300,9 @@ func GenErrTable(p *load.Program, out string) error {
 				continue
 			}
 			for _, s := range c.errSitesOf(fi) {
+				if s.fatal {
+					tab["fatal: "+s.fn+" | "+s.callee]++
+				}
 				if s.strong {
 					tab[s.fn+" | "+s.callee]++
 				} else if s.dropped {
@@ -272,6 +327,8 @@ func (c *Ctx) errorDispositions(rule string, pkgs []string, only func(fn string)
 		return
 	}
 	strong := map[string]int{}
+	fatal := map[string]int{}
+	nonFatal := map[string]string{}
 	weak := map[string][]string{}
 	dropped := map[string][]string{}
 	for _, pkg := range pkgs {
@@ -281,6 +338,11 @@ func (c *Ctx) errorDispositions(rule string, pkgs []string, only func(fn string)
 			}
 			for _, s := range c.errSitesOf(fi) {
 				k := s.fn + " | " + s.callee
+				if s.fatal {
+					fatal[k]++
+				} else {
+					nonFatal[k] = s.pos
+				}
 				if s.strong {
 					strong[k]++
 				} else {
@@ -311,9 +373,41 @@ func (c *Ctx) errorDispositions(rule string, pkgs []string, only func(fn string)
 		r.Check(len(dropped[k]) <= allowed, rule, fn, "no new call of "+callee+" whose error is discarded", dropped[k][len(dropped[k])-1], itoa(allowed)+" such site(s) recorded",
 			"a call of "+callee+" in "+fn+" discards its error result (statement, defer or blank; not among the sites read and recorded on the pinned tree): a failed flush, write or delete goes unnoticed: "+detail)
 	}
+	// fail-stop sites: where an error used to stop the process (panic, log.Fatal) on every path, it still does. Turning such
+	// a stop into a returned or logged error lets the node carry on with the step half done
+	var fkeys []string
+	for k := range tab {
+		if strings.HasPrefix(k, "fatal: ") {
+			fkeys = append(fkeys, k)
+		}
+	}
+	sort.Strings(fkeys)
+	for _, fk := range fkeys {
+		k := strings.TrimPrefix(fk, "fatal: ")
+		fn := k[:indexOf(k, " | ")]
+		callee := k[indexOf(k, " | ")+3:]
+		inPkg := false
+		for _, pkg := range pkgs {
+			if len(fn) > len(pkg) && fn[:len(pkg)+1] == pkg+"." {
+				inPkg = true
+			}
+		}
+		if !inPkg || (only != nil && !only(fn)) {
+			continue
+		}
+		if _, present := nonFatal[k]; !present && fatal[k] == 0 {
+			continue // the call is gone from this function altogether: judged by the rules about what the function does
+		}
+		pos := "-"
+		if p, ok := nonFatal[k]; ok {
+			pos = p
+		}
+		r.Check(fatal[k] >= tab[fk], rule, fn, "an error of "+callee+" still stops the process", pos, itoa(tab[fk])+" site(s) end in a call that does not return",
+			"a failure of "+callee+" in "+fn+" used to stop the node (panic / log.Fatal) and is now returned or logged while the node carries on: "+detail)
+	}
 	var keys []string
 	for k := range tab {
-		if len(k) > 9 && k[:9] == "dropped: " {
+		if (len(k) > 9 && k[:9] == "dropped: ") || strings.HasPrefix(k, "fatal: ") {
 			continue
 		}
 		keys = append(keys, k)
